@@ -850,6 +850,23 @@ func c13Sets(thorough bool, f func(s c13Set)) {
 			f(c13Set{"chain3", []string{c13Centre, v, w}, 1})
 		}
 	}
+	// F4: duplicated records (identical sequences in one sample are at distance 0: never linked)
+	for i, a := range small {
+		f(c13Set{"duplicate2", []string{a, a}, 1})
+		for j, b := range small {
+			if i == j {
+				continue
+			}
+			f(c13Set{"duplicate3", []string{a, a, b}, 1})
+			f(c13Set{"duplicate3", []string{a, b, a}, 1})
+			f(c13Set{"duplicate3", []string{b, a, a}, 1})
+		}
+	}
+	// F5: two samples; every record has an abundance 0..2 in each (not absent from both)
+	for k := 1; k <= 3; k++ {
+		c13Subsets(len(small), k, func(idx []int) { f(c13Set{fmt.Sprintf("two-samples%d", k), pick(small, idx), 2}) })
+	}
+	// chains of 4 (see F3)
 	vs := c13EditsR(c13Centre)
 	if thorough {
 		vs = n1
@@ -880,22 +897,6 @@ func c13Sets(thorough bool, f func(s c13Set)) {
 				f(c13Set{"chain4", []string{c13Centre, v, w, x}, 1})
 			}
 		}
-	}
-	// F4: duplicated records (identical sequences in one sample are at distance 0: never linked)
-	for i, a := range small {
-		f(c13Set{"duplicate2", []string{a, a}, 1})
-		for j, b := range small {
-			if i == j {
-				continue
-			}
-			f(c13Set{"duplicate3", []string{a, a, b}, 1})
-			f(c13Set{"duplicate3", []string{a, b, a}, 1})
-			f(c13Set{"duplicate3", []string{b, a, a}, 1})
-		}
-	}
-	// F5: two samples; every record has an abundance 0..2 in each (not absent from both)
-	for k := 1; k <= 3; k++ {
-		c13Subsets(len(small), k, func(idx []int) { f(c13Set{fmt.Sprintf("two-samples%d", k), pick(small, idx), 2}) })
 	}
 	// F2: subsets of 4: containing the centre (quick), all (thorough)
 	if thorough {
@@ -1269,14 +1270,17 @@ func TestVerifC13(t *testing.T) {
 		r.Note("sampled native multi-worker part stopped early (time budget); the exhaustive 1-worker part is not affected")
 	}
 
-	r.Sample(c13Case{Family: "chain3", Seqs: []string{"acgtta", "ccgtta", "ccgtt"}, Samples: []string{"A"}, Counts: [][]int{{3}, {2}, {1}}, Dist: 1, Ratio: 1})
-	r.Sample(map[string]any{"graph_of_previous_sample": strings.Split(c13BuildGraph1([]string{"acgtta", "ccgtta", "ccgtt"}, []int{3, 2, 1}, 1, 1, 1).String(), "\n")})
 	r.RequireNonVacuous("default_setting_cases_with_edges")
 	r.RequireNonVacuous("edges_dist2")
 	r.RequireNonVacuous("status_h")
 	r.RequireNonVacuous("status_i")
 	r.RequireNonVacuous("status_s")
 	r.RequireNonVacuous("end_to_end_CLIOBIClean_runs")
+	if r.Shard != 0 {
+		return
+	}
+	r.Sample(c13Case{Family: "chain3", Seqs: []string{"acgtta", "ccgtta", "ccgtt"}, Samples: []string{"A"}, Counts: [][]int{{3}, {2}, {1}}, Dist: 1, Ratio: 1})
+	r.Sample(map[string]any{"graph_of_previous_sample": strings.Split(c13BuildGraph1([]string{"acgtta", "ccgtta", "ccgtt"}, []int{3, 2, 1}, 1, 1, 1).String(), "\n")})
 }
 
 func c13FirstDiff(a, b string) string {
